@@ -5,8 +5,11 @@ collects them.  Fields of PROP:
   modules      Lean modules holding the property theorems (Gnmi.Props.<id>, generated props)
   theorems     fully qualified theorem names audited with `#print axioms` on every run
   components   correspondence runs: {"c": <vcorr component>, "label"?, "gen_args"?,
-               "quick": {"n": random sequences, "exhaustive": bool, "seeds": k}, "thorough": {...}}
+               "quick": {"n": random sequences, "exhaustive": bool, "seeds": k}, "thorough": {...},
+               "min_len"?: shortest sequence counted as non-trivial (default 3; 1 where one line is a whole scenario)}
   pre / extra  optional python callables step(ctx, cfg) run before / after the correspondences
+  replay       optional callable replay(ctx, cfg, path) used by `./check <id> --replay <file>` instead of the
+               generic in-process replay
   monitor      "spec" (compare impl with the abstract spec column) or "model"
   level, trusted_base, assumptions, rule   evidence fields
   manifest     {"level_text", "level_note", "technique", "design_ref"} for MANIFEST.json
